@@ -78,6 +78,10 @@ def stepOp (st : RunSt) (j : Json) : Except String (RunSt × Json) := do
   | "extend" =>
     let vs ← getNats j "vs"
     return edit st (.extend vs)
+  | "sort" =>
+    -- step 5 of Graph.sort: `graph.extend(<arrangement of the present nodes>)` (C12_relink_refines)
+    let vs ← getNats j "vs"
+    return edit st (.extend vs)
   | "ia" =>
     let a ← getNat j "a"
     let vs ← getNats j "vs"
@@ -89,6 +93,18 @@ def stepOp (st : RunSt) (j : Json) : Except String (RunSt × Json) := do
   | "rm" =>
     let v ← getNat j "v"
     return edit st (.remove v)
+  | "rmmany" =>
+    -- `Graph.remove([n1, n2, ..])`: the wrapper checks every node first (nothing is written when one of
+    -- them is not in this graph), then calls `_nodes.remove` once per node
+    let vs ← getNats j "vs"
+    if vs.all (fun v => contains st.s v) then
+      let st' := vs.foldl (fun acc v => (edit acc (.remove v)).1) st
+      return (st', Json.bool true)
+    else
+      return (st, Json.bool false)
+  | "rejected" =>
+    -- a call the Graph / Function wrapper rejects before it reaches the container: nothing happens
+    return (st, Json.bool false)
   | "iter" =>
     let d ← getStr j "d"
     let dir := if d == "r" then Dir.rev else Dir.fwd
@@ -137,7 +153,7 @@ def run (j : Json) : Except String Json := do
     | some (s0, d) =>
       let r := runHist d s0 .notStarted st.evs.toList
       -- the statement of C11_untouched_exactly_once_in_order, evaluated
-      let T := touchedAll st.evs.toList
+      let T := touchedRun d s0 .notStarted st.evs.toList
       let okU := untouched T (r.2.2 ++ rest r.1 d r.2.1) == untouched T (rest s0 d .notStarted)
       obj [("y", natsJ r.2.2), ("T", natsJ T), ("ok", Json.bool okU)]
     | none => Json.null
@@ -162,6 +178,7 @@ def parseOp (j : Json) : Except String Op := do
   match o with
   | "append" => return .append (← getNat j "v")
   | "extend" => return .extend (← getNats j "vs")
+  | "sort" => return .extend (← getNats j "vs")
   | "ia" => return .insertAfter (← getNat j "a") (← getNats j "vs")
   | "ib" => return .insertBefore (← getNat j "a") (← getNats j "vs")
   | "rm" => return .remove (← getNat j "v")
@@ -175,6 +192,8 @@ def parseAttr (j : Json) : Except String Attr :=
 structure RecSt where
   w : RWorld
   its : Array (Dir × List RFrame)
+  /-- plain `iter(graph)` / `reversed(graph)` generators on individual graphs -/
+  flat : Array (Nat × Dir × Cursor) := #[]
 
 def recOp (fuel : Nat) (st : RecSt) (j : Json) : Except String (RecSt × Json) := do
   let o ← getStr j "o"
@@ -182,7 +201,20 @@ def recOp (fuel : Nat) (st : RecSt) (j : Json) : Except String (RecSt × Json) :
   | "iter" =>
     let rev ← getBool j "rev"
     let d := if rev then Dir.rev else Dir.fwd
-    return ({ st with its := st.its.push (d, recStart 0) }, obj [("r", toJson st.its.size)])
+    let g := (j.getObjValAs? Nat "g").toOption.getD 0
+    return ({ st with its := st.its.push (d, recStart g) }, obj [("r", toJson st.its.size)])
+  | "fiter" =>
+    let rev ← getBool j "rev"
+    let g ← getNat j "g"
+    let d := if rev then Dir.rev else Dir.fwd
+    return ({ st with flat := st.flat.push (g, d, .notStarted) }, obj [("r", toJson st.flat.size)])
+  | "fnext" =>
+    let k ← getNat j "k"
+    match st.flat[k]? with
+    | some (g, d, c) =>
+      let r := iterNext (st.w.setOf g) d c
+      return ({ st with flat := st.flat.setIfInBounds k (g, d, r.1) }, obj [("r", resJ r.2)])
+    | none => throw "bad flat iterator"
   | "next" =>
     let k ← getNat j "k"
     match st.its[k]? with
@@ -211,8 +243,10 @@ def recOp (fuel : Nat) (st : RecSt) (j : Json) : Except String (RecSt × Json) :
     let rev ← getBool j "rev"
     let g ← getNat j "g"
     let d := if rev then Dir.rev else Dir.fwd
-    let r := recDrain st.w d fuel (recStart g)
-    return (st, obj [("spec", outsJ (specTop st.w d (st.w.sets.length + 1) g)),
+    -- the step bound of C11_rec_preorder, not the generous default
+    let sp := specTop st.w d (st.w.sets.length + 1) g
+    let r := recDrain st.w d (2 * sp.length + 2) (recStart g)
+    return (st, obj [("spec", outsJ sp),
       ("out", outsJ r.1), ("r", resJ r.2)])
   | _ => throw s!"unknown op {o}"
 
